@@ -1,4 +1,9 @@
 use vstd::prelude::*;
 // only what the accept loop needs from server/handler.rs: the handler map as an opaque, clonable value
 pub trait RequestHandler {}
+pub trait AuthorizationHandler {}
 pub struct ServerHandlerMap<T> { pub p: core::marker::PhantomData<T> }
+impl<T> Clone for ServerHandlerMap<T> {
+    #[verifier::external_body]
+    fn clone(&self) -> (r: Self) ensures r == *self { unimplemented!() }
+}
